@@ -242,6 +242,18 @@ class Lib:
         if isinstance(node, ast.Name) and node.id in fc.locals:
             shape = fc.locals[node.id]
             if isinstance(v, VDict) and v.val is None and \
+                    shape.startswith("dict:list:"):
+                es = shape[10:]
+                d = VDict(v.dom, st.fresh("dvarr", z3.ArraySort(
+                    U, z3.ArraySort(IntS, sort_of_shape(es)))), shape[5:],
+                    lid=v.lid)
+                d.vlen = st.fresh("dvlen", z3.ArraySort(U, IntS))
+                k_ = z3.Const("k!dl", U)
+                st.assume(z3.ForAll([k_], d.vlen[k_] >= 0))
+                if getattr(v, "default_list", False):
+                    d.default_list = True
+                return d
+            if isinstance(v, VDict) and v.val is None and \
                     shape.startswith("dict:"):
                 vs = shape[5:]
                 val = st.fresh("dval", z3.ArraySort(U, sort_of_shape(vs)))
@@ -677,6 +689,19 @@ class Lib:
         finally:
             st.old = saved
 
+    def sp_iter_start(self, st, node):
+        """value of an expression at the start of the current iteration of
+        the innermost cut loop (after the invariant has been assumed)"""
+        snap = st.ghost.get("__iter_start")
+        if snap is None:
+            return self.eng.eval(st, node.args[0])
+        saved = st.old
+        st.old = snap
+        try:
+            return self.sp_old(st, node)
+        finally:
+            st.old = saved
+
     def as_iterator(self, st, v, line):
         if isinstance(v, VIter):
             return v
@@ -1057,6 +1082,11 @@ class Lib:
         q_ = eng.coerce(st, vs[3], "U") if len(vs) > 3 else None
         pm = object.__new__(PathModel2)
         return VBool(PathModel2.path_inst(pm, p_, k_, m_, q_))
+
+    def sp_use_path(self, st, node):
+        """use_path(p, k[, m[, q]]): same instance formula as path_inst;
+        meant for the `lemmas` of a loop / antecedents (valid theory facts)"""
+        return self.sp_path_inst(st, node)
 
     def sp_axinst(self, st, node):
         """axinst(F): F must be an instance of an (audited) theory axiom,
